@@ -25,6 +25,21 @@ claimed = {
  'C16': ("static: tag->field agreement under path conditions, trim-cutset and table-start constants, freshness of the supplier list, struct tags over go/ssa",
          "<1>..<8> each store line[3:] into the format's field; entry stored at <8> under Name then accumulator reset; suppliers = one lookup per code letter onto a fresh slice; trims strip spaces and tabs; header+blank skipped exactly; Enzyme tags; Read/Export plumbing; no capped scanner",
          "header detection by exact text; name offset of supplier lines"),
+ 'C07': ("static: def-use terms and path conditions of chooser/Optimize, comma-ok guard rule, alphabet table vs the default tables, over go/ssa",
+         "Choice offered iff float(w)/float(sum over the amino acid) > 0.10 with Item=Triplet, Weight=uint(Weight), keyed by Letter; no chooser without an eligible codon; Optimize writes Pick() of chooser[string(residue)] once per residue in order; lookup is comma-ok and the miss returns an error; empty-input guards; seed from the ns clock; random protein alphabet = the 20 amino acids every table encodes",
+         "draw statistics (weightedrand, math/rand); global Seed side effects"),
+ 'C08': ("static: origin (fresh/param/global) ownership analysis over the type closure of codon.Table + counting terms over go/ssa",
+         "which exported functions hand out Table memory shared with package state and which functions store through Table arguments (leak x mutator pairs); complete list of in-place writers; table map and package state written only by init; generator returns only fresh memory; getCodonFrequency counts +1 per complete 3-letter window over every rune; OptimizeTable sets Weight=freq(ToUpper(seq))[Triplet] and writes nothing else",
+         "data races beyond memory disjointness; callers holding tables across calls"),
+ 'C17': ("static: lock-step (coinductive) invariants over the window/barcodeNum phi webs, re-test and restart-after-shift CFG rules, alphabet/term shape over go/ssa",
+         "barcode = debruijn[start:end] with end-start=length; start = barcodeNum*(length-(n-1)) and every shift also advances barcodeNum; every shift is re-tested by its loop and bounded; after a shift all test loops are restarted before the append (fails today: known findings); sequence = b+b[0:n-1] over a 4-letter ACGT alphabet",
+         "that the Lyndon-word construction yields a De Bruijn sequence"),
+ 'C18': ("static: def-use terms (collect/zip normalisation, additive decomposition) and path conditions of Add/CompromiseCodonTable, origin-based no-argument-writes rule over go/ssa",
+         "cutOff<0 / >1 strict guards on the float itself before any work; Add: weight = first+second under equal triplets, letters/start/stop from the first table, no extra filter; Compromise: share=int(w/sum*10000) over the matching table (second matched by letter AND triplet), cut=int(10000*cutOff), 0 iff either share<cut else int((s1+s2)/2); neither function writes its arguments",
+         "tables over different genetic codes; float rounding (±1)"),
+ 'C19': ("static: additive decomposition of dH/dS with path conditions, formula term of Tm, linear form of MarmurDoty, table symmetry, dependence (slicing) rules over go/ssa",
+         "dH,dS = initiation + symmetry iff s==RC(s) + terminal penalty iff last letter in {A,T} + neighbour sum over windows [i,i+2), i=0..len-2; salt term in dS only; Tm = dH*1000/(dS+1.9872*ln(C/f))-273.15 with f=1 iff self-complementary else 4; dH independent of concentrations; sequence used only via ToUpper; no state between calls; NN table 16 keys, strand-symmetric; MeltingTemp defaults; MarmurDoty coefficients",
+         "monotonicity in concentrations; the parameter values"),
  'C20': ("static: channel typestate + loop-exit rule on sticky decoder errors + guard/path-condition rules over go/ssa",
          "both channels closed exactly once on every path, no send after close; a Token error leaves the loop; one Token site, every token inspected; entry sent iff StartElement \"entry\", decoded from that element; Read starts Parse only after both opens, hands over the gzip reader untouched; xml tags",
          "progress with unbuffered error channel when consumer drains entries first; partially decoded entries; encoding/xml, gzip"),
